@@ -196,7 +196,7 @@ def run(tier, seed):
                 except SyntaxError as e:
                     failures.append({"kind": "emitted-file-does-not-compile", "tree": tname, "file": rel, "error": str(e)})
             # importability over an overlay copy (only for trees in the documented layout)
-            if tname.startswith("realistic"):
+            if tname.startswith("realistic") or tname == "crossref":
                 ov = os.path.join(tmp, "overlay-" + tname)
                 shutil.copytree(os.path.join(repo.REPO, "src", "eolib"), os.path.join(ov, "eolib"),
                                 ignore=shutil.ignore_patterns("__pycache__", "_generated"))
